@@ -9,7 +9,8 @@
 // produced by Marshal of generated values and then mutated one edit at a time.  The direct oracles
 // state the property on every input: strict fork = encoding/asn1 (accept/reject, value, remainder) unless
 // D2 / D3 is located in the bytes the accepting decoder consumed; lax = strict whenever strict accepts,
-// and lax accepts more only where a documented malformation is located.  The edit class can only
+// and lax accepts more only where a documented malformation is located, and then with the value (decoded by
+// encoding/asn1) of the input whose INTEGERs have their redundant octets removed.  The edit class can only
 // withdraw an excuse (after an edit that introduces no difference none is granted), never grant one.
 package main
 
@@ -18,6 +19,7 @@ import (
 	uasn1 "encoding/asn1"
 	"flag"
 	"fmt"
+	"math/big"
 	"os"
 	"reflect"
 	"runtime"
@@ -296,8 +298,13 @@ func mutate(g *asn1gen.Gen, der []byte) []mutant {
 	}
 	prim := func(n *node) bool { return n.children == nil }
 	for _, m := range []string{"len-nonmin", "len-weird", "int-nonmin", "empty", "string-byte", "tag-nonmin", "D2-tag", "D2-oid",
-		"D3", "time", "bool", "bitpad", "tagbits", "struct-edit", "len-off", "explicit-prim", "implicit-cons"} {
-		if m == "explicit-prim" {
+		"D3", "time", "bool", "bitpad", "tagbits", "struct-edit", "len-off", "explicit-prim", "implicit-cons", "int-wide"} {
+		if m == "int-wide" {
+			// wanted often, like the next: it needs an INTEGER / ENUMERATED to apply at all
+			if r.Intn(2) == 0 {
+				continue
+			}
+		} else if m == "explicit-prim" {
 			// wanted often: it needs a tagged constructed element to apply at all
 			if r.Intn(3) == 0 {
 				continue
@@ -340,6 +347,26 @@ func mutate(g *asn1gen.Gen, der []byte) []mutant {
 			}
 			k := 1 + r.Intn(2)*r.Intn(8)
 			n.content = append(bytes.Repeat([]byte{pad}, k), n.content...)
+		case "int-wide":
+			// an INTEGER / ENUMERATED at or just beyond the limits of int32 / int64, in 4..12 content octets:
+			// minimally encoded (valid DER; whether it is accepted depends only on the width of the target),
+			// or that encoding with redundant leading octets
+			n := pickFrom(all, func(n *node) bool { return prim(n) && len(n.tag) == 1 && (n.tag[0] == 2 || n.tag[0] == 10) })
+			if n == nil || r.Intn(5) == 0 {
+				n = pickFrom(all, func(n *node) bool { return prim(n) && n.tag[0]&0xc0 != 0 })
+			}
+			if n == nil {
+				continue
+			}
+			ws := wideInts()
+			n.content = append([]byte{}, ws[r.Intn(len(ws))]...)
+			if r.Intn(2) == 0 {
+				n.content = padInt(n.content, 1+r.Intn(2)*r.Intn(4))
+				m = "int-wide-pad"
+			}
+			if n.tag[0]&0xc0 != 0 {
+				m = "bytepoke" // implicitly tagged: the harness does not know the universal type
+			}
 		case "empty":
 			n := pickFrom(all, func(n *node) bool { return prim(n) && n.tag[0] == 6 })
 			if n == nil || r.Intn(4) == 0 {
@@ -520,6 +547,143 @@ func mutate(g *asn1gen.Gen, der []byte) []mutant {
 	return out
 }
 
+// twos is the minimal two's complement (DER INTEGER content) encoding of x, written out by hand.
+func twos(x *big.Int) []byte {
+	if x.Sign() >= 0 {
+		b := x.Bytes()
+		if len(b) == 0 || b[0]&0x80 != 0 {
+			b = append([]byte{0}, b...)
+		}
+		return b
+	}
+	// -x = 2^(8n) - m for the smallest n with m >= 2^(8n-1)
+	for n := 1; ; n++ {
+		m := new(big.Int).Add(new(big.Int).Lsh(big.NewInt(1), uint(8*n)), x)
+		if m.Sign() > 0 && m.Bit(8*n-1) == 1 {
+			b := m.Bytes()
+			return append(bytes.Repeat([]byte{0}, n-len(b)), b...)
+		}
+	}
+}
+
+// padInt prepends k redundant sign octets.
+func padInt(c []byte, k int) []byte {
+	pad := byte(0)
+	if len(c) > 0 && c[0]&0x80 != 0 {
+		pad = 0xff
+	}
+	return append(bytes.Repeat([]byte{pad}, k), c...)
+}
+
+var wideIntsCache [][]byte
+
+// wideInts: minimal encodings of +-2^e + {-1, 0, 1} for e at and beyond the widths of the integer
+// targets (int32, int64): 4..13 content octets with every combination of leading 00 / ff / 7f / 80 / 01.
+func wideInts() [][]byte {
+	if wideIntsCache == nil {
+		for _, e := range []uint{31, 32, 63, 64, 71, 72, 79, 87, 95} {
+			for _, d := range []int64{-1, 0, 1} {
+				p := new(big.Int).Lsh(big.NewInt(1), e)
+				wideIntsCache = append(wideIntsCache, twos(new(big.Int).Add(p, big.NewInt(d))), twos(new(big.Int).Add(new(big.Int).Neg(p), big.NewInt(d))))
+			}
+		}
+	}
+	return wideIntsCache
+}
+
+// the sweep of the focused types: every INTEGER / ENUMERATED replaced by a value just outside int64
+// (9 octets whose first is the REQUIRED sign octet 00 / ff, 9 octets starting otherwise, 10 and 12 octets),
+// just outside int32, and by padded forms of values just outside and just inside.
+func wideSweep() (min, padded [][]byte) {
+	two := func(e uint, d int64, neg bool) []byte {
+		p := new(big.Int).Lsh(big.NewInt(1), e)
+		if neg {
+			p.Neg(p)
+		}
+		return twos(p.Add(p, big.NewInt(d)))
+	}
+	min = [][]byte{
+		two(63, 0, false), two(64, -1, false), two(63, -1, true), two(64, 0, true), two(64, 0, false), two(71, 0, true),
+		two(71, 0, false), two(71, -1, true), two(87, 1, true), two(87, 1, false),
+		two(31, 0, false), two(32, -1, false), two(31, -1, true), two(32, 0, true),
+	}
+	padded = [][]byte{
+		padInt(two(64, -1, false), 1), padInt(two(63, -1, true), 1), padInt(two(63, 0, false), 2), padInt(two(64, 0, true), 3),
+		padInt(two(63, -1, false), 1), padInt(two(63, 0, true), 1), padInt(two(0, 0, false), 8), padInt(two(1, 0, true), 8),
+		padInt(two(31, -1, false), 1), padInt(two(31, 0, true), 1), padInt(two(32, -1, false), 1), padInt(two(31, -1, true), 4),
+	}
+	return
+}
+
+// wideAll replaces the content of every INTEGER / ENUMERATED (and, if every leaf of the target is an integer,
+// of every implicitly tagged primitive element; if every leaf is an integer or an interface{}, every
+// primitive universal element, made an INTEGER) by the idx-th value of the sweep.
+func wideAll(der []byte, idx int, implicitInts, retagAny bool) []mutant {
+	min, padded := wideSweep()
+	idx %= len(min) + len(padded)
+	var c []byte
+	class := "int-wide"
+	if idx < len(min) {
+		c = min[idx]
+	} else {
+		c, class = padded[idx-len(min)], "int-wide-pad"
+	}
+	roots, ok := parseNodes(der, 0)
+	if !ok {
+		return nil
+	}
+	var all []*node
+	flatten(roots, &all)
+	hit := false
+	for _, n := range all {
+		if n.children == nil && retagAny && len(n.tag) == 1 && n.tag[0]&0xe0 == 0 && n.tag[0] != 10 {
+			n.tag[0] = 2 // whatever the interface{} held becomes an INTEGER
+		}
+		if n.children == nil && (len(n.tag) == 1 && (n.tag[0] == 2 || n.tag[0] == 10) || implicitInts && n.tag[0]&0xc0 != 0 && n.tag[0]&0x20 == 0) {
+			n.content = append([]byte{}, c...)
+			hit = true
+		}
+	}
+	if !hit {
+		return nil
+	}
+	return []mutant{{serialize(roots), class}}
+}
+
+// stripRedundant removes the redundant leading octets of every INTEGER / ENUMERATED of a DER-structured
+// input (every element with definite minimal lengths): the same input without that malformation.
+func stripRedundant(in []byte, implicitInts bool) (out []byte, changed bool) {
+	roots, ok := parseNodes(in, 0)
+	if !ok || !bytes.Equal(serialize(roots), in) {
+		return nil, false
+	}
+	var all []*node
+	flatten(roots, &all)
+	for _, n := range all {
+		if n.children != nil || !(len(n.tag) == 1 && (n.tag[0] == 2 || n.tag[0] == 10) || implicitInts && n.tag[0]&0xc0 != 0 && n.tag[0]&0x20 == 0) {
+			continue
+		}
+		for len(n.content) >= 2 && (n.content[0] == 0 && n.content[1]&0x80 == 0 || n.content[0] == 0xff && n.content[1]&0x80 != 0) {
+			n.content = n.content[1:]
+			changed = true
+		}
+	}
+	return serialize(roots), changed
+}
+
+// withoutRaw: the value with the parts that merely repeat input octets (RawContent, RawValue bytes) blanked.
+func withoutRaw(v *asn1gen.Val) *asn1gen.Val {
+	c := *v
+	if c.K == "raw" {
+		c.Bytes, c.Full, c.BytesNil, c.FullNil = nil, nil, true, true
+	}
+	c.RC, c.L = nil, nil
+	for _, x := range v.L {
+		c.L = append(c.L, withoutRaw(x))
+	}
+	return &c
+}
+
 // relaxAll applies each documented malformation to every element of the matching universal tag.
 func relaxAll(der []byte) []mutant {
 	var out []mutant
@@ -644,7 +808,7 @@ func focusedTypes() []*asn1gen.Ty {
 		return &asn1gen.Ty{Kind: "struct", Fields: []asn1gen.Field{{Tag: tag, T: t}}}
 	}
 	sq := func(t *asn1gen.Ty) *asn1gen.Ty { return &asn1gen.Ty{Kind: "seqof", Elem: t} }
-	for _, k := range []string{"int", "int32", "bigint", "enum", "oid", "string", "any"} {
+	for _, k := range []string{"int", "int32", "int64", "bigint", "enum", "oid", "string", "any"} {
 		leaf := func() *asn1gen.Ty { return &asn1gen.Ty{Kind: k} }
 		tag := ""
 		if k == "string" {
@@ -655,6 +819,10 @@ func focusedTypes() []*asn1gen.Ty {
 			st("", sq(sq(st(tag, leaf())))))
 	}
 	out = append(out, &asn1gen.Ty{Kind: "seqof", SetName: 1, Elem: &asn1gen.Ty{Kind: "int64"}}, &asn1gen.Ty{Kind: "seqof", SetName: 2, Elem: &asn1gen.Ty{Kind: "string"}})
+	// implicitly tagged integers of each width (the sweep of wide integers reaches them: every leaf is an integer)
+	for _, k := range []string{"int", "int32", "int64", "enum", "bigint"} {
+		out = append(out, st("tag:1", &asn1gen.Ty{Kind: k}), st("optional,tag:0", &asn1gen.Ty{Kind: k}), sq(st("application,tag:2", &asn1gen.Ty{Kind: k})))
+	}
 	// the documented differences: GeneralizedTime (D3), long-form tag numbers (D2)
 	tm := func() *asn1gen.Ty { return &asn1gen.Ty{Kind: "time"} }
 	out = append(out, st("generalized", tm()), sq(st("generalized", tm())), st("", st("generalized,optional", tm())), st("generalized,explicit,tag:2", tm()),
@@ -691,7 +859,12 @@ func focusedTypes() []*asn1gen.Ty {
 
 // classes of edit after which lax mode may accept what strict mode refuses
 func laxDocumented(class string) bool {
-	return class == "int-nonmin" || class == "empty" || class == "string-byte" || strings.HasSuffix(class, "-all")
+	return class == "int-nonmin" || class == "int-wide-pad" || class == "empty" || class == "string-byte" || strings.HasSuffix(class, "-all")
+}
+
+// classes of edit that do nothing but prepend redundant octets to INTEGERs / ENUMERATEDs of a strict-DER input
+func onlyPadsIntegers(class string) bool {
+	return class == "int-nonmin" || class == "int-nonmin-all" || class == "int-wide-pad"
 }
 
 // ---- the documented exceptions, located in the input itself (whatever edit produced it)
@@ -920,6 +1093,12 @@ func main() {
 		}
 		sort.Strings(ktags)
 		ktags = append(ktags, fmt.Sprintf("depth:%d", t.Depth()))
+		implicitInts := true // every leaf is an integer: an implicitly tagged primitive element is one, too
+		intOrAny := true
+		for k := range kinds {
+			implicitInts = implicitInts && strings.Contains(" int int32 int64 enum bigint struct seqof ", " "+k+" ")
+			intOrAny = intOrAny && strings.Contains(" any int int32 int64 enum bigint struct seqof ", " "+k+" ")
+		}
 
 		// ---- Marshal of a generated value, both packages
 		v := g.Value(t, top)
@@ -957,6 +1136,16 @@ func main() {
 				inputs = append(inputs, relaxAll(mf.out)...)
 				inputs = append(inputs, diffAll(mf.out)...)
 				inputs = append(inputs, explicitPrimAll(mf.out)...)
+				// integers at and beyond the limits of the integer targets: the whole sweep at top level, a
+				// rotating part of it at every other position
+				_, ok := parseNodes(mf.out, 0)
+				sweep := map[int]int{1: 26, 2: 5}[t.Depth()]
+				if sweep == 0 {
+					sweep = 2
+				}
+				for k := 0; ok && k < sweep; k++ {
+					inputs = append(inputs, wideAll(mf.out, i*sweep+k, implicitInts, intOrAny && kinds["any"])...)
+				}
 			}
 			inputs = append(inputs, mutate(g, mf.out)...)
 		}
@@ -1026,6 +1215,21 @@ func main() {
 						// after an edit known to introduce none
 						if !((laxDocumented(in.class) || unstructured(in.class)) && locatedLax(consumed(in.bytes, fl.rest, top), kinds)) {
 							fail("lax mode accepts an input that is not one of the documented malformations")
+						}
+						// ... and what a redundant leading octet excuses is that octet only: the same input with
+						// every INTEGER / ENUMERATED minimally encoded (computed here, decoded by encoding/asn1) has
+						// the same value and remainder.  A padded integer whose minimal form is refused (too wide
+						// for the target) must not be accepted, and none may come out with another value.
+						if norm, changed := stripRedundant(in.bytes, implicitInts); changed {
+							ref := unmarshal(asn1gen.Upstream, t, top, norm)
+							switch {
+							case ref.class != "ok":
+								if onlyPadsIntegers(in.class) {
+									fail(fmt.Sprintf("lax mode accepts a padded integer although encoding/asn1 refuses the input with the padding removed (%x)", norm))
+								}
+							case withoutRaw(fl.val).Coq() != withoutRaw(ref.val).Coq() || len(fl.rest) != len(ref.rest):
+								fail(fmt.Sprintf("lax mode decodes a non-minimal integer to a value other than that of its minimal encoding (%x: %s)", norm, withoutRaw(ref.val).Coq()))
+							}
 						}
 					}
 				case 2: // strict fork versus encoding/asn1
